@@ -286,6 +286,52 @@ def redirect_table() -> List[dict]:
     return [{"tpl": t, "methods": ["GET"], "app": [], "domain": ""} for t in tpls]
 
 
+# ------------------------------------------------------------------ Host headers / domain rules
+DOMAIN_RULES: List[str] = [
+    "d1.example", "D1.Example", "d1.example:80", "d1.example:8080", "d1.example:8000", "d1.example:81",
+    "10.0.0.8", "web80", "host8.example0", "d1.example.", "a",
+]
+
+
+def rule_name_port(rule: str) -> Tuple[str, str]:
+    r = rule.rstrip(".")
+    name, sep, port = r.rpartition(":")
+    if sep and port.isdigit():
+        return name, port
+    return r, ""
+
+
+def host_headers(rule: str, rng: random.Random) -> List[str]:
+    """Host header spellings around a domain rule: same name with/without/other ports, case, near misses."""
+    name, port = rule_name_port(rule)
+    low = name.lower()
+    ports = ["", "80", "8080", "8000", "88", "800", "81", "443", "8", "0"]
+    if port and port not in ports:
+        ports.append(port)
+    out = [low + (":" + p if p else "") for p in ports]
+    out += [low.upper(), low.upper() + ":8080", low.capitalize() + (":" + port if port else "")]
+    out += [low + "0", low + "8", low[:-1] if len(low) > 1 else low + "x", "x" + low, low + ".", "other.example",
+            "other.example:80"]
+    rng.shuffle(out)
+    return out
+
+
+def substitute_domain(table: List[dict], old: str, new: str) -> List[dict]:
+    t2 = copy.deepcopy(table)
+    for e in t2:
+        if e["domain"] == old:
+            e["domain"] = new
+    return t2
+
+
+def domains_of(table: List[dict]) -> List[str]:
+    out: List[str] = []
+    for e in table:
+        if e["domain"] and e["domain"] not in out:
+            out.append(e["domain"])
+    return out
+
+
 def chunks(xs: Sequence[Any], n: int) -> Iterable[Sequence[Any]]:
     for k in range(0, len(xs), n):
         yield xs[k:k + n]
